@@ -248,15 +248,20 @@ func hashLiteral(c *vf.Ctx, g *gitx.Git, dir, scratch string, bodies [][]byte, t
 		c.Must(os.WriteFile(p, b, 0o644), "write body")
 		paths = append(paths, p)
 	}
-	res := g.RunIn(dir, []byte(strings.Join(paths, "\n")+"\n"), "hash-object", "-t", "tree", "--literally", "-w", "--no-filters", "--stdin-paths")
-	if res.Timeout {
-		c.Inconclusive("git hash-object timed out")
-		return nil, false
-	}
-	ids := strings.Fields(string(res.Out))
-	if res.Code != 0 || len(ids) != len(bodies) {
-		c.Broken("git hash-object -t tree --literally: %s", res)
-		return nil, false
+	var ids []string
+	for at := 0; at < len(paths); at += 1000 { // git hash-object --literally keeps every input file open
+		chunk := paths[at:min(at+1000, len(paths))]
+		res := g.RunIn(dir, []byte(strings.Join(chunk, "\n")+"\n"), "hash-object", "-t", "tree", "--literally", "-w", "--no-filters", "--stdin-paths")
+		if res.Timeout {
+			c.Inconclusive("git hash-object timed out")
+			return nil, false
+		}
+		got := strings.Fields(string(res.Out))
+		if res.Code != 0 || len(got) != len(chunk) {
+			c.Broken("git hash-object -t tree --literally: %s", res)
+			return nil, false
+		}
+		ids = append(ids, got...)
 	}
 	for _, p := range paths {
 		os.Remove(p)
@@ -832,7 +837,58 @@ type setCase struct {
 
 var encodeModes = []uint32{0o100644, 0o100644, 0o100755, 0o40000, 0o40000, 0o120000, 0o160000, 0o100664, 0o100611, 0o100600, 0o100777, 0, 0o40755, 0o120777, 0o160755, 0o100000, 0o644, 0o140000}
 
+// genOrderSet builds a small clean set around one base name that exists as a directory (or file) next to
+// files (or directories) named base+c: the place where git's order (directories compare as name+"/") differs from bytewise order.
+func genOrderSet(r *rand.Rand, p pool) setCase {
+	base := []string{"a", "x", "lib", "\xc3\xa9", "A", "a.b"}[r.Intn(6)]
+	suffixes := []string{" ", "!", "+", "-", ".", ".c", "0", "a", "_", "~", "\xff", "-x", "..", "/"}
+	var es []ent
+	mk := func(name string, dir bool) {
+		if dir {
+			es = append(es, ent{0o40000, name, p.tree})
+		} else {
+			m := []uint32{0o100644, 0o100755, 0o120000, 0o160000}[r.Intn(4)]
+			id := p.blob
+			if m == 0o160000 {
+				id = p.other
+			}
+			es = append(es, ent{m, name, id})
+		}
+	}
+	mk(base, r.Intn(4) != 0)
+	used := map[string]bool{}
+	for k := 1 + r.Intn(4); k > 0; k-- {
+		sfx := suffixes[r.Intn(len(suffixes))]
+		if sfx == "/" || used[sfx] {
+			continue
+		}
+		used[sfx] = true
+		mk(base+sfx, r.Intn(3) == 0)
+	}
+	sort.SliceStable(es, func(i, j int) bool { return sortKey(es[i]) < sortKey(es[j]) })
+	order := "sorted"
+	if r.Intn(4) == 0 && len(es) > 1 {
+		// bytewise order instead of git's order (only counts as unsorted if they differ)
+		bs := append([]ent(nil), es...)
+		sort.SliceStable(bs, func(i, j int) bool { return bs[i].name < bs[j].name })
+		for i := range bs {
+			if bs[i].name != es[i].name {
+				order = "unsorted"
+			}
+		}
+		es = bs
+	}
+	var sh []string
+	for _, e := range es {
+		sh = append(sh, fmt.Sprintf("%o:%s", e.mode&0o170000, strings.TrimPrefix(e.name, base)))
+	}
+	return setCase{es: es, order: order, shape: fmt.Sprintf("orderset o=%s %s", order, strings.Join(sh, ",")), nontri: true}
+}
+
 func genSet(r *rand.Rand, p pool, idLen int) setCase {
+	if r.Intn(8) == 0 {
+		return genOrderSet(r, p)
+	}
 	n := 1 + r.Intn(6)
 	switch r.Intn(30) {
 	case 0:
